@@ -254,6 +254,8 @@ class CGraph:
         utpm_x_list = []
         for xi in x_list:
             element = numpy.asarray(xi).reshape((1,1) + numpy.shape(xi))
+            if not numpy.issubdtype(element.dtype, numpy.inexact):
+                element = element.astype(float)
             utpm_x_list.append(algopy.UTPM(element))
 
         self.pushforward(utpm_x_list)
